@@ -159,6 +159,10 @@ def generate(seed: int, tier: str) -> dict:
                 "formulas": {},
             }
         )
+        if chance(wr, 0.3):
+            # a default that is not zero (standard monthly hours, a flat amount): what a
+            # sub-period nobody set reads as - and no part of any sum of set amounts
+            variables[-1]["default"] = pick(wr, [1.0, 151.67, -2.0]) if variables[-1]["type"] == "float" else pick(wr, [1, 7])
         if chance(wr, 0.25):
             # an end date concerns formulas: inputs given for later periods - or for a long
             # period running past it - are inputs all the same
